@@ -227,3 +227,61 @@ pub fn exercise(shp: &[u8], shx: &[u8], check_alloc: bool) -> Result<Outcome, Fa
     Ok(ex.out)
 }
 
+
+
+/// The same bytes as FILES, opened by path (`ShapeReader::from_path`, `read_shapes`): next to the .shx and alone.
+/// Panics are caught; iterators are capped; the allocation bound uses a larger constant (two 8 KiB BufReaders, paths).
+pub fn exercise_path(shp: &[u8], shx: &[u8], dir: &std::path::Path, check_alloc: bool) -> Result<(), Fail> {
+    let total = shp.len() + shx.len();
+    let cap = shp.len() / 8 + shx.len() / 8 + 16;
+    let bound = 64 * total + 128 * 1024;
+    let p = dir.join("exercise.shp");
+    let px = p.with_extension("shx");
+    std::fs::write(&p, shp).map_err(|e| Fail::new("harness/disk-io", e.to_string()))?;
+    let call = |what: &str, f: &mut dyn FnMut() -> Result<(), Fail>| -> Result<(), Fail> {
+        let (r, peak) = alloc::window(|| guard(|| f()));
+        match r {
+            Ok(r) => r?,
+            Err(pn) => return Err(Fail::new(&panic_key(&pn), format!("{}: panic: {}", what, pn))),
+        }
+        if check_alloc && peak.peak > bound {
+            return Err(Fail::new(
+                "alloc-bound",
+                format!("{}: peak of {} bytes requested (largest single request {}) for {} + {} input bytes on disk; bound is 64 x input + 128 KiB = {}", what, peak.peak, peak.largest, shp.len(), shx.len(), bound),
+            ));
+        }
+        Ok(())
+    };
+    for with_shx in [true, false] {
+        if with_shx {
+            std::fs::write(&px, shx).map_err(|e| Fail::new("harness/disk-io", e.to_string()))?;
+        } else {
+            let _ = std::fs::remove_file(&px);
+        }
+        let tag = if with_shx { "by path, with .shx" } else { "by path, no .shx" };
+        call(&format!("{}: from_path + iteration", tag), &mut || {
+            if let Ok(mut r) = ShapeReader::from_path(&p) {
+                let mut n = 0usize;
+                for item in r.iter_shapes() {
+                    let _ = item;
+                    n += 1;
+                    ensure!(n <= cap, "unbounded-iteration", "{}: more than {} items from {} + {} input bytes", tag, cap, shp.len(), shx.len());
+                }
+                let _ = r.shape_count();
+                let _ = r.read_nth_shape(0).map(|x| x.map(|_| ()));
+                let _ = r.read_nth_shape(usize::MAX).map(|x| x.map(|_| ()));
+                if r.seek(1).is_ok() {
+                    let _ = r.iter_shapes().next().map(|x| x.map(|_| ()));
+                }
+            }
+            Ok(())
+        })?;
+        call(&format!("{}: read_shapes", tag), &mut || {
+            let _ = shapefile::read_shapes(&p).map(|v| v.len());
+            Ok(())
+        })?;
+    }
+    let _ = std::fs::remove_file(&p);
+    let _ = std::fs::remove_file(&px);
+    Ok(())
+}
